@@ -3,6 +3,8 @@ import json, os
 import seqprop
 from props import _seqplans
 import schedupper
+import seqextra
+import policytie
 
 THEOREMS = {"C13.v": json.load(open(os.path.join(os.path.dirname(__file__), "_theorems.json")))["C13"],
             "C13c.v": ["C13_every_interleaving"]}
@@ -13,6 +15,6 @@ def run(ctx):
     return seqprop.run(
         ctx, THEOREMS, corr=('result', 'class'), oracle=('C13',),
         quick_plan=quick, thorough_plan=thorough, corpus_tags=(),
-        extra=schedupper.run_c13_conc,
+        extra=seqextra.chain(schedupper.run_c13_conc, policytie.run_policy_tie),
         text="Coq theorem for ANY policy (including ones with Invalid pairs), any state and any call: a successful get reports the requested class or a class t for which the policy, evaluated in the same call, answered Match or Steal; a path-local fact of LLFree::get (each return site's class comes from a policy evaluation on the entry value it committed), hence also along every history. Proved both for sequential histories (Upper.v) and for EVERY interleaving of the whole-allocator machine M2 (any number of threads, any schedule, any memory): a thread-local invariant over (primitive, continuation stack). Tied to the code by evaluating the extracted policy on the class component of every result, incl. a custom policy with unusable pairs.",
         rule=_seqplans.RULE)
